@@ -262,6 +262,15 @@ def run_core(rep, pid, tier, profile, variants, n_quick, n_thorough, salt, repla
           key = 'sqlite-aggregate-null-rules'
       except Exception:  # pylint: disable=broad-except
         pass
+    if kind == 'rejected-valid-program' and detail.startswith('RuleCompile') and not metamorphic:
+      # is it the known order dependence of variable elimination?  then some other order compiles
+      from props import variants as V
+      pr = random.Random(s + '/reorder')
+      for _ in range(10):
+        st, _a, _b = R.logica_run.run_pred(V.permute(prog, pr, rules=False, conj=True, disj=False), pred, time_limit=15.0)
+        if st == 'ok':
+          key = 'rejected-but-another-conjunct-order-compiles'
+          break
     if key in seen_keys and reported >= 3:
       continue
     seen_keys.add(key)
@@ -311,9 +320,10 @@ def accept_key(kind, detail, vname):
     words = [w for w in msg.split() if len(w) > 2][:6]
     return 'variant:%s:%s:%s' % (vname, detail.split(' (')[0].replace(' ', ''), ' '.join(words))
   if kind == 'rejected-valid-program':
-    msg = detail.split('\x1b')[0][:60]
     import re
-    msg = re.sub(r'[^A-Za-z ]+', ' ', detail.replace('\x1b[1m', '').replace('\x1b[0m', ''))
-    msg = ' '.join(msg.split()[:8])
-    return 'rejected:%s' % msg
+    cls, _, msg = detail.partition(': ')
+    msg = re.sub(r'\x1b\[[0-9;]*m', '', msg)
+    msg = re.sub(r'[^A-Za-z ]+', ' ', msg)
+    words = [w for w in msg.split() if len(w) > 2][:4]
+    return 'rejected:%s:%s' % (cls, ' '.join(words))
   return '%s:%s' % (kind, vname)
